@@ -78,3 +78,4 @@ revert 25cefdc C17 C13
 revert e3cce72 C15
 revert 1ff4174 C09
 revert e1ffc85 C09 C01
+revert 1fbc700 C09
